@@ -5,6 +5,8 @@ import json, os
 BASELINE = ("cd /repo && cargo nextest run --workspace --no-fail-fast --test-threads 8 --offline "
             "|| cargo test --workspace --no-fail-fast --offline")
 
+HOOK_COMMIT = "3c473f8"
+
 # id -> (level, engine, technique, level text, level note, design ref)
 CLAIMED = {
   "C01": ("model_checking", "E-BFS",
@@ -47,6 +49,11 @@ CLAIMED = {
           "All sequences of <=3 (quick) / <=4 (thorough) order requests (side x price x quantity x 3 asset-sharing instruments, limit and unknown-instrument orders) against 54/128 balance-fee configurations on MockExchange::open_order with the ledger read back after every step; plus all operation/latency schedules of up to 3/4 client operations through the real MockExecution client and MockExchange::run on a paused runtime (responses, notifications, queries) against a ledger model written from the statement.",
           "Market orders only are accepted by the mock; the ledger model follows the statement (spent asset debited, nothing else changes); ids need only be fresh and increasing.",
           "DESIGN.md §3 C08"),
+  "C10": ("exploration", "E-SEQ",
+          "bounded-exhaustive engine event histories through the real sync/async audit runners, a twin engine and the real StateReplicaManager, plus derived fault streams",
+          "Every engine-event history up to length 3-4 (quick) / 4-5 (thorough) over a 40-symbol alphabet (market, account, reconnect notices, trading-state updates, the four commands, shutdown) in 5-7 engine worlds (quiet / order-issuing strategy, healthy / terminated / missing / unhealthy links, different starting sequences) is run from scratch through sync_run_with_audit, async_run_with_audit (manual polling, all batching schedules up to length 2/3) and a twin engine stepped with process_with_audit; one record per event carrying it, consecutive sequences after the snapshot, final record kind; the recorded stream drives the real StateReplicaManager tick by tick (replica == engine on every component, orders modulo in-flight markers) and every drop / duplicate / swap fault stream (never applied silently). A deduplicating BFS to depth 4/6 extends the reach.",
+          "Default instrument / global data types; orders compared after projecting in-flight markers as DESIGN §3 C10 says; one fault per fault stream.",
+          "DESIGN.md §3 C10"),
   "C11": ("exploration", "E-SEQ",
           "exhaustive enumeration of instrument multisets x insertion orders through the real index builder and derived tables",
           "Every sequence with repetition of length <=4 (quick) / <=6 (thorough) and every permutation of larger subsets of an 8-definition menu goes through IndexedInstrumentsBuilder; dense keys, uniqueness, completeness, inverse lookups, per-role asset/exchange resolution and order independence are checked against the definitions; all 255 subsets through EngineStateBuilder (asset/instrument/connectivity tables, account snapshots) and every subset x link assignment through ExecutionBuilder::build polled by hand.",
@@ -132,9 +139,9 @@ def main():
         "setup_cmd": "cd /verif/harness && CARGO_NET_OFFLINE=true cargo build --release --offline",
         "hooks": {
             "guard": "barter_rs_barter_rs_verif",
-            "enable": "no hooks are needed: every seam used is a public type parameter/constructor of barter-rs; the harness crate /verif/harness depends on /repo's crates by path, so every check rebuilds from /repo's working tree",
+            "enable": "harness/.cargo/config.toml sets rustflags = [\"--cfg\", \"barter_rs_barter_rs_verif\"], so every build of the harness crate (path dependencies on /repo's crates => rebuilt from /repo's working tree) compiles barter-data with the one hook on; only C06's stream-initialisation layer uses it (Binance WebSocket URL override read from env BARTER_VERIF_BINANCE_WS_URL). Every other seam is a public type parameter / constructor of barter-rs.",
             "baseline_off_cmd": BASELINE,
-            "source_commits": [],
+            "source_commits": [HOOK_COMMIT],
             "add_only": True,
         },
         "engines": [
